@@ -80,6 +80,8 @@ def generate(seed, tier):
     world = gen_world(rng, prof)
     if sw.chance(.5):
         world = gen_motif_world(Rng(seed, 'motif'), tier)
+    if sw.chance(.06):
+        world = gen_lattice_world(Rng(seed, 'lattice'), tier)
     srng = Rng(seed, 'sched')
     n_items = len(world['cells']) + len(world['names'])
     scheds = []
@@ -213,6 +215,39 @@ def gen_motif_world(rng, tier):
     for c in world['cells']:
         if 'f' in c:
             c['f'] = fix(c['f'])
+    return world
+
+
+def gen_lattice_world(rng, tier):
+    """A small cycle on top of a deep reconvergent (acyclic) lattice: every
+    cell of a row reads two cells of the row above.  The cycle analysis must
+    stay fast however many simple paths the acyclic region has."""
+    n = rng.randrange(12, 22 if tier == 'quick' else 36)
+    w = rng.pick([2, 2, 3])
+    world = {'books': [[[n, w]]], 'cells': [], 'names': []}
+
+    def ref(r, c):
+        return ['r', 0, 0, r, c, r, c]
+    top = rng.randrange(3)
+    for c in range(w):
+        if top == 0:      # unavoidable 2-cycle (plus a constant column)
+            f = ['op', '+', ref(0, (c + 1) % 2), ['n', 1]] if c < 2 else None
+        elif top == 1:    # guarded cycle, branch not selected
+            f = ['f', 'IF', ['op', '>', ['n', 0], ['n', 1]],
+                 ref(0, (c + 1) % 2), ['n', c + 1]] if c < 2 else None
+        else:             # self loop through a range
+            f = ['f', 'SUM', ['r', 0, 0, 0, 0, 0, w - 1]] if c == 0 else None
+        cell = {'at': [0, 0, 0, c]}
+        if f is None:
+            cell['v'] = c + 1
+        else:
+            cell['f'] = f
+        world['cells'].append(cell)
+    for r in range(1, n):
+        for c in range(w):
+            world['cells'].append({'at': [0, 0, r, c], 'f': [
+                'op', rng.pick(['+', '+', '-']), ref(r - 1, c),
+                ref(r - 1, (c + 1) % w)]})
     return world
 
 
